@@ -49,6 +49,14 @@ class tar_syncer(http_syncer, base.ExternalSyncer):
         repo_name = os.path.basename(basedir)
         self.tempdir = os.path.join(repos_dir, f".{repo_name}.update")
         self.tempdir_old = os.path.join(repos_dir, f".{repo_name}.old")
+        # An update interrupted between moving the old repo out of the way and
+        # moving the new one into place leaves the repo in tempdir_old; put it
+        # back before anything (including the cleanup below) touches it.
+        try:
+            if not os.path.exists(basedir) and os.path.isdir(self.tempdir_old):
+                os.rename(self.tempdir_old, basedir)
+        except OSError as e:
+            raise base.SyncError(f"failed to restore repo: {e.strerror}") from e
         # remove tempdirs on exit
         atexit.register(partial(shutil.rmtree, self.tempdir, ignore_errors=True))
         atexit.register(partial(shutil.rmtree, self.tempdir_old, ignore_errors=True))
@@ -57,10 +65,12 @@ class tar_syncer(http_syncer, base.ExternalSyncer):
     def _post_download(self, path):
         super()._post_download(path)
 
-        # create tempdirs for staging
+        # create tempdirs for staging, dropping leftovers of an interrupted
+        # (or, in a long running process, an earlier) sync
         try:
-            os.makedirs(self.tempdir)
-            os.makedirs(self.tempdir_old)
+            for tempdir in (self.tempdir, self.tempdir_old):
+                shutil.rmtree(tempdir, ignore_errors=True)
+                os.makedirs(tempdir)
         except OSError as e:
             raise base.SyncError(f"failed creating repo update dirs: {e}")
 
